@@ -165,7 +165,9 @@ static void prop(Ctx &c) {
     }
     // body intact, index digest changed and header re-sealed: the chunk's stored bytes do not match its index checksum
     {
-        ref::Header h2 = z.h; h2.entries[bad].digest[c.pick(h2.entries[bad].digest.size())] ^= (uint8_t)(1 + c.draw(254));
+        ref::Header h2 = z.h; bool zero_digest = c.gver >= 4 && c.rarely(3);
+        if (zero_digest) { std::fill(h2.entries[bad].digest.begin(), h2.entries[bad].digest.end(), 0); c.label("index-digest-all-zero"); }      // an all-zero checksum is how an EMPTY chunk is listed; for a chunk that stores bytes it is just a wrong checksum
+        else h2.entries[bad].digest[c.pick(h2.entries[bad].digest.size())] ^= (uint8_t)(1 + c.draw(254));
         Bytes hdr = ref::emit_header(h2); Bytes g = hdr; g.insert(g.end(), z.file.begin() + z.h.total_size, z.file.end());
         if (hdr.size() == z.h.total_size) {
             evals++; if (small_read) nontriv++;
